@@ -82,6 +82,12 @@ func workAcc(w *run.W) {
 	}
 	switch p.Family {
 	case "special":
+		for i, pr := range accNegatives {
+			if w.Mine(int64(i)) && w.Begin("special-negative:"+pr.Name) {
+				judge(pr.Name, pr.Text, impl.BuildMem("root.jst", pr.Text))
+				w.End()
+			}
+		}
 		for i, pr := range c16Projects {
 			if w.Mine(int64(i)) && w.Begin("special:"+pr.Name) {
 				judge(pr.Name, pr.Text, impl.BuildMem("root.jst", pr.Text))
@@ -179,18 +185,48 @@ func workAcc(w *run.W) {
 	}
 }
 
+// accNegatives: documents the builder must reject (C03 owns that verdict); if a change makes one of them acceptable, the
+// validators below see the catalog that results. The last group are accepted documents with an unusual trait.
+var accNegatives = []struct{ Name, Text string }{
+	{"dup-rpc-method", "JSIGHT 0.3\nTAG @t\nURL /r\n  Protocol json-rpc-2.0\n  Method m\n    Tags @t\n    Params\n    {}\n  Method m\n    Tags @t\n    Result\n    {}\n"},
+	{"dup-http-method", "JSIGHT 0.3\nGET /a\n  200 any\nGET /a\n  201 any\n"},
+	{"response-without-body-first", "JSIGHT 0.3\nGET /a\n  302\n    Headers\n    {\"L\": \"x\"}\n  200 any\n"},
+	{"response-without-body-only-headers", "JSIGHT 0.3\nGET /a\n  302 // Moved\n    Headers\n    {\"L\": \"x\"}\n"},
+	{"request-without-body", "JSIGHT 0.3\nPOST /a\n  Request\n    Headers\n    {\"L\": \"x\"}\n  200 any\n"},
+	{"undefined-tag", "JSIGHT 0.3\nGET /a\n  Tags @nope\n  200 any\n"},
+	{"undefined-type-in-body", "JSIGHT 0.3\nGET /a\n  200\n  {\"x\": @nope}\n"},
+	{"response-code-600", "JSIGHT 0.3\nGET /a\n  600 any\n"},
+	{"path-param-unknown", "JSIGHT 0.3\nGET /a/{id}\n  Path\n  {\"other\": 1}\n  200 any\n"},
+	{"jsight-0.2", "JSIGHT 0.2\nGET /a\n  200 any\n"},
+	// accepted, unusual
+	{"same-tag-twice-in-tags", "JSIGHT 0.3\nTAG @t\nGET /a\n  Tags @t @t\n  200 any\n"},
+	{"same-tag-url-and-method", "JSIGHT 0.3\nTAG @t\nTAG @u\nURL /a\n  Tags @t\n  GET\n    Tags @u @t\n    200 any\n  POST\n    200 any\n"},
+	{"path-or-mismatch", "JSIGHT 0.3\nGET /a/{id}\n  Path\n  {\n    \"id\": \"x\" // {or: [{type: \"integer\"}, {type: \"boolean\"}]}\n  }\n  200 any\n"},
+	{"path-type-undefined", "JSIGHT 0.3\nGET /a/{id}\n  Path\n  {\n    \"id\": 1 // {type: \"@undefined\"}\n  }\n  200 any\n"},
+	{"path-or-object-form-undefined", "JSIGHT 0.3\nGET /a/{id}\n  Path\n  {\n    \"id\": 1 // {or: [{type: \"@undefined\"}, {type: \"integer\"}]}\n  }\n  200 any\n"},
+	{"regex-invalid-pattern", "JSIGHT 0.3\nGET /a\n  200 regex\n  /[a-/\n"},
+	{"regex-type-invalid-pattern", "JSIGHT 0.3\nTYPE @r regex\n  /[a-/\nGET /a\n  200 @r\n"},
+	{"body-only-annotation", "JSIGHT 0.3\nGET /a\n  200\n    // only an annotation\n  404 any\n"},
+	{"type-body-only-annotation", "JSIGHT 0.3\nTYPE @t\n  // only an annotation\nGET /a\n  200 any\n"},
+	{"allof-key-shortcut-clash", "JSIGHT 0.3\nTYPE @name\n  \"n\"\nTYPE @base\n  {\n    @name: 1\n  }\nTYPE @d\n  { // {allOf: \"@base\"}\n    \"@name\": 2\n  }\nGET /a\n  200 @d\n"},
+}
+
 func accJudge(w *run.W, prop, text string, b *impl.Built) {
 	detail := map[string]any{"input": trunc(text, 3000)}
 	switch prop {
 	case "C04":
 		j, ji := impl.ToJson(&b.J), impl.ToJsonIndent(&b.J)
-		for name, c := range map[string]impl.Call{"ToJson": j, "ToJsonIndent": ji} {
+		for _, nc := range []struct {
+			name string
+			c    impl.Call
+		}{{"ToJson", j}, {"ToJsonIndent", ji}} {
+			name, c := nc.name, nc.c
 			if c.Panic != nil {
 				w.Violation("C04", name+"-panics:"+c.Panic.Key(), fmt.Sprintf("%s panics on an accepted project: %s\n%s", name, c.Panic.Value, trunc(text, 800)), detail)
 				return
 			}
 			if c.Err != "" {
-				w.Violation("C04", name+"-fails:"+errClass(lastSeg(c.Err)), fmt.Sprintf("%s fails on an accepted project: %s\n%s", name, c.Err, trunc(text, 800)), detail)
+				w.Violation("C04", name+"-fails:"+serErrClass(c.Err), fmt.Sprintf("%s fails on an accepted project: %s\n%s", name, c.Err, trunc(text, 800)), detail)
 				return
 			}
 			if !utf8.ValidString(c.Out) {
@@ -264,6 +300,21 @@ func accJudge(w *run.W, prop, text string, b *impl.Built) {
 	if w.Shard == 1 {
 		w.Sample(map[string]any{"accepted_input": trunc(text, 400)})
 	}
+}
+
+// serErrClass: the dependency's error code if there is one, else the masked head of the innermost message.
+func serErrClass(e string) string {
+	if i := strings.Index(e, "ERROR (code "); i >= 0 {
+		j := strings.Index(e[i:], ")")
+		if j > 0 {
+			return e[i : i+j+1]
+		}
+	}
+	l := lastSeg(e)
+	if k := strings.IndexByte(l, '\n'); k >= 0 {
+		l = l[:k]
+	}
+	return errClass(l)
 }
 
 func lastSeg(s string) string {
